@@ -6,7 +6,12 @@
 
 use std::collections::BTreeMap;
 use std::os::fd::AsRawFd;
+#[cfg(not(feature = "verif"))]
 use std::sync::{Arc, Condvar, Mutex};
+#[cfg(feature = "verif")]
+use std::sync::Arc;
+#[cfg(feature = "verif")]
+use crate::vsync::{Condvar, Mutex};
 
 use libc::{MAP_FAILED, MAP_FIXED, MAP_SHARED, PROT_READ, PROT_WRITE};
 use libc::{c_uchar, c_void, size_t};
@@ -171,6 +176,8 @@ struct BufferState {
     circ_len: usize,    // In bytes.
     member_size: usize, // In bytes.
     tags: BTreeMap<TagPos, Vec<Tag>>,
+    #[cfg(feature = "verif")]
+    verif: crate::verif::BufVerif,
 }
 
 impl BufferState {
@@ -212,12 +219,32 @@ pub struct BufferReader<T: Copy> {
     parent: Arc<Buffer<T>>,
     start: usize,
     end: usize,
+    #[cfg(feature = "verif")]
+    verif_token: u64,
+}
+
+#[cfg(feature = "verif")]
+impl<T: Copy> Drop for BufferReader<T> {
+    fn drop(&mut self) {
+        crate::verif::close_window(self.verif_token);
+    }
 }
 
 impl<T: Copy> BufferReader<T> {
     #[must_use]
+    #[cfg(not(feature = "verif"))]
     fn new(parent: Arc<Buffer<T>>, start: usize, end: usize) -> Self {
         Self { parent, start, end }
+    }
+    #[cfg(feature = "verif")]
+    fn new(parent: Arc<Buffer<T>>, start: usize, end: usize) -> Self {
+        let verif_token = crate::verif::claim_window(parent.verif_id(), false, start, end);
+        Self {
+            parent,
+            start,
+            end,
+            verif_token,
+        }
     }
 
     /// Return slice to read from.
@@ -233,6 +260,8 @@ impl<T: Copy> BufferReader<T> {
 
     /// We're done with the buffer. Consume `n` samples.
     pub fn consume(self, n: usize) {
+        #[cfg(feature = "verif")]
+        crate::verif::close_window(self.verif_token);
         self.parent.consume(n);
     }
 
@@ -262,13 +291,34 @@ pub struct BufferWriter<T: Copy> {
     parent: Arc<Buffer<T>>,
     start: usize,
     end: usize,
+    #[cfg(feature = "verif")]
+    verif_token: u64,
+}
+
+#[cfg(feature = "verif")]
+impl<T: Copy> Drop for BufferWriter<T> {
+    fn drop(&mut self) {
+        crate::verif::close_window(self.verif_token);
+    }
 }
 
 impl<T: Copy> BufferWriter<T> {
     #[must_use]
+    #[cfg(not(feature = "verif"))]
     fn new(parent: Arc<Buffer<T>>, start: usize, end: usize) -> BufferWriter<T> {
         assert!(end >= start);
         Self { parent, start, end }
+    }
+    #[cfg(feature = "verif")]
+    fn new(parent: Arc<Buffer<T>>, start: usize, end: usize) -> BufferWriter<T> {
+        assert!(end >= start);
+        let verif_token = crate::verif::claim_window(parent.verif_id(), true, start, end);
+        Self {
+            parent,
+            start,
+            end,
+            verif_token,
+        }
     }
 
     /// Return the slice to write to.
@@ -295,6 +345,8 @@ impl<T: Copy> BufferWriter<T> {
     /// we're done. Also here are the tags, with positions relative to
     /// start of buffer.
     pub fn produce(self, n: usize, tags: &[Tag]) {
+        #[cfg(feature = "verif")]
+        crate::verif::close_window(self.verif_token);
         self.parent.produce(n, tags);
     }
 
@@ -332,6 +384,8 @@ impl<T> Buffer<T> {
                     circ_len: size,
                     member_size: std::mem::size_of::<T>(),
                     tags: BTreeMap::new(),
+                    #[cfg(feature = "verif")]
+                    verif: Default::default(),
                 }),
                 Condvar::new(),
             )),
@@ -416,6 +470,11 @@ impl<T: Copy> Buffer<T> {
         }
         s.rpos = newpos;
         s.used -= n;
+        #[cfg(feature = "verif")]
+        {
+            s.verif.consumed += n as u64;
+            crate::verif::add_activity(n);
+        }
         cv.notify_all();
     }
 
@@ -454,6 +513,11 @@ impl<T: Copy> Buffer<T> {
         }
         s.wpos = (s.wpos + n) % s.capacity();
         s.used += n;
+        #[cfg(feature = "verif")]
+        {
+            s.verif.produced += n as u64;
+            crate::verif::add_activity(n);
+        }
         cv.notify_all();
     }
 
@@ -497,6 +561,8 @@ impl<T: Copy> Buffer<T> {
                 ));
             }
         }
+        #[cfg(feature = "verif")]
+        crate::verif::open_window(self.verif_id(), s.capacity(), false, start, end);
         drop(s);
         tags.sort_by_key(|a| a.pos());
         Ok((BufferReader::new(self, start, end), tags))
@@ -506,11 +572,51 @@ impl<T: Copy> Buffer<T> {
     pub fn write_buf(self: Arc<Self>) -> Result<BufferWriter<T>> {
         let s = self.state.0.lock().unwrap();
         let (start, end) = s.write_range();
+        #[cfg(feature = "verif")]
+        crate::verif::open_window(self.verif_id(), s.capacity(), true, start, end);
         drop(s);
         Ok(BufferWriter::new(
             //unsafe { std::mem::transmute::<&mut [T], &mut [T]>(buf) },
             self, start, end,
         ))
+    }
+}
+
+#[cfg(feature = "verif")]
+impl<T> Buffer<T> {
+    /// Identity of this buffer: its address.
+    #[must_use]
+    pub fn verif_id(&self) -> usize {
+        self as *const Self as usize
+    }
+
+    /// Move the ring position and leave some samples in the buffer, without
+    /// touching sample memory. Equivalent to a producer committing `offset`
+    /// samples, a consumer consuming them, and the producer then committing
+    /// `prefill` more.
+    pub(crate) fn verif_preposition(&self, offset: usize, prefill: usize) {
+        let mut s = self.state.0.lock().unwrap();
+        let cap = s.capacity();
+        assert!(s.used == 0 && offset < cap.max(1) + 1 && prefill <= cap);
+        s.rpos = offset % cap;
+        s.wpos = (offset + prefill) % cap;
+        s.used = prefill;
+    }
+
+    /// Dump internal state.
+    #[must_use]
+    pub fn verif_dump(&self) -> crate::verif::BufferDump {
+        let s = self.state.0.lock().unwrap();
+        crate::verif::BufferDump {
+            rpos: s.rpos,
+            wpos: s.wpos,
+            used: s.used,
+            capacity: s.capacity(),
+            tags: s.tags.iter().map(|(k, v)| (*k, v.clone())).collect(),
+            produced: s.verif.produced,
+            consumed: s.verif.consumed,
+            live: crate::verif::live_windows(self.verif_id()),
+        }
     }
 }
 
